@@ -2,6 +2,7 @@
 #include <symengine/logic.h>
 #include <symengine/functions.h>
 #include <symengine/symengine_casts.h>
+#include <algorithm>
 #include <iterator>
 
 namespace SymEngine
@@ -1167,7 +1168,22 @@ RCP<const Set> FiniteSet::set_complement(const RCP<const Set> &o) const
         set_basic rest;
         bool left_open = other.get_left_open(),
              right_open = other.get_right_open();
-        for (auto it = container_.begin(); it != container_.end(); it++) {
+        // the interval is cut at the elements from left to right, so the real
+        // elements have to be visited in increasing order (container_ is
+        // ordered by hash); non-real numbers are not in the interval
+        vec_basic elements;
+        for (const auto &a : container_) {
+            if (not is_a_Number(*a)) {
+                rest.insert(a);
+            } else if (not down_cast<const Number &>(*a).is_complex()) {
+                elements.push_back(a);
+            }
+        }
+        std::sort(elements.begin(), elements.end(),
+                  [](const RCP<const Basic> &x, const RCP<const Basic> &y) {
+                      return eq(*Lt(x, y), *boolTrue);
+                  });
+        for (auto it = elements.begin(); it != elements.end(); it++) {
             if (eq(*max({*it, other.get_start()}), *other.get_start())) {
                 if (eq(**it, *other.get_start()))
                     left_open = true;
